@@ -805,6 +805,8 @@ class Model(Object):
                     context(partial(setattr, reaction, "_model", self))
                     context(partial(self.reactions.add, reaction))
 
+                # The objective must not keep terms of variables that are gone.
+                self.solver.objective.set_linear_coefficients({forward: 0, reverse: 0})
                 self.remove_cons_vars([forward, reverse])
                 self.reactions.remove(reaction)
                 reaction._model = None
